@@ -3,6 +3,7 @@ package main
 // C07 — numbers compare and compute exactly as specified.
 
 import (
+	"go/constant"
 	"fmt"
 	"go/ast"
 	"go/token"
@@ -105,6 +106,7 @@ func (c *Ctx) filesFuncs(files ...string) []*ssa.Function {
 
 func checkC07(c *Ctx) {
 	c.explainf("C07 decides the absence of the arithmetic shapes that are wrong at the 64-bit boundaries and the NaN discipline in the comparison and numeric-tower code: no three-way result is taken from the sign of a difference of two 64-bit integers (unless both are widened from at most 32 bits or are lengths), none from an unsigned difference; wherever a float operand is compared, an IsNaN test of that operand dominates the sign computation; the operator table maps each comparison name to the matching predicate on the three-way result and codes above 1 to false except for !=; the type-pair matrix of the numeric comparisons is symmetric; mixed int/float arms convert to float64; every integer division or modulo with a non-constant divisor runs only behind the builtin recover barrier. It does not decide numerical results.")
+	c.checkSignumOrdered("C07-SIGN")
 	scope := c.filesFuncs("comparisons.go", "numerictower.go")
 
 	// ---- C07-SOD / C07-UNS
@@ -1120,4 +1122,77 @@ func condLeaves(v ssa.Value) []ssa.Value {
 		}
 	}
 	return out
+}
+
+// checkSignumOrdered: C07-SIGN. The comparisons of floats reduce to the sign of a difference. For
+// two infinities of the same sign the difference is NaN, which is neither above nor below zero;
+// equality of Inf with Inf comes out right only because the sign routine answers 0 for everything
+// that is not strictly positive or strictly negative. The rule: in every sign routine over a float
+// (a function float -> int returning constants), a positive result is returned only under f > 0
+// and a negative one only under f < 0.
+func (c *Ctx) checkSignumOrdered(rule string) {
+	n := 0
+	for _, f := range c.zygoFuncs() {
+		if f.Parent() != nil || len(f.Params) != 1 || f.Signature.Results().Len() != 1 {
+			continue
+		}
+		pt, ok := f.Params[0].Type().Underlying().(*types.Basic)
+		if !ok || pt.Info()&types.IsFloat == 0 {
+			continue
+		}
+		rt, ok := f.Signature.Results().At(0).Type().Underlying().(*types.Basic)
+		if !ok || rt.Info()&types.IsInteger == 0 {
+			continue
+		}
+		// all returns are constants
+		allConst := true
+		var rets []*ssa.Return
+		for _, r := range returnsOf(f) {
+			if _, ok := r.Results[0].(*ssa.Const); !ok {
+				allConst = false
+			}
+			rets = append(rets, r)
+		}
+		if !allConst || len(rets) < 3 {
+			continue
+		}
+		n++
+		param := f.Params[0]
+		under := func(b *ssa.BasicBlock, op token.Token) bool {
+			return guardedBy(b, func(cond ssa.Value) (bool, bool) {
+				bo, ok := cond.(*ssa.BinOp)
+				if !ok {
+					return false, false
+				}
+				zeroY := false
+				if k, ok := bo.Y.(*ssa.Const); ok && k.Value != nil {
+					if fv, _ := constant.Float64Val(constant.ToFloat(k.Value)); fv == 0 {
+						zeroY = true
+					}
+				}
+				if bo.X != ssa.Value(param) || !zeroY || bo.Op != op {
+					return false, false
+				}
+				return true, true
+			})
+		}
+		okAll := true
+		var at token.Pos
+		for _, r := range rets {
+			k := r.Results[0].(*ssa.Const)
+			v, _ := constant.Int64Val(k.Value)
+			if v > 0 && !under(r.Block(), token.GTR) {
+				okAll, at = false, r.Pos()
+			}
+			if v < 0 && !under(r.Block(), token.LSS) {
+				okAll, at = false, r.Pos()
+			}
+		}
+		c.check(okAll, rule, fnName(f), "nonzero sign only under a strict comparison with zero", orPos(at, f.Pos()),
+			"the positive result is returned only under f > 0, the negative one only under f < 0: NaN (the difference of two equal infinities) has sign 0",
+			"the sign routine returns a nonzero result on a path that is not under the matching strict comparison with zero: for NaN, which is what Inf - Inf is, it answers nonzero, so (== Inf Inf) is false and (> Inf Inf) true")
+	}
+	if n == 0 {
+		c.undecided(rule, "comparisons.go", "sign routines", token.NoPos, "no float sign routine found (signumFloat confirmed by reading)")
+	}
 }
